@@ -15,6 +15,7 @@ import (
 
 	"servitor/client"
 	"servitor/jtp"
+	"servitor/verifrt"
 	"verif/lib/ev"
 	"verif/lib/par"
 	"verif/lib/world"
@@ -254,6 +255,17 @@ func runResp(r *ev.Report, st statusAtom, hs []hdrAtom, b bodyAtom, tolName stri
 		lines = append(lines, h.Line)
 	}
 	put(u, rawResp(st.Text, lines, b.Text))
+	// the route (and its hit counter) is only needed for this one exchange: forget it
+	// afterwards, or millions of responses of several kilobytes pile up in memory
+	defer func() {
+		k := strings.TrimPrefix(u, "https://")
+		routes.Delete(k)
+		reqCount.Delete(k)
+		if n%512 == 0 { // the peer's and the seam's request logs are not used by this part
+			theWorld.TakeLog()
+			verifrt.TakeConnLog()
+		}
+	}()
 	class, followTo := classifyResp(st, hs, b, tol)
 	link, _ := url.Parse(u)
 	var doc map[string]any
